@@ -1,8 +1,9 @@
 # C20 — policy-driven issuance is bounded: ecosystem mint cap and AMM reward allocations
 LEAN_MODULES = ["Sif.Props.C20"]
-EXTRACT = [{"group": "disp", "passes": ["dispconsts"]}]
+EXTRACT = [{"group": "disp", "passes": ["dispconsts", "mintcallers", "disphooks"]}]
 FAMILIES = [
     {"name": "mint", "family": "mint", "group": "disp", "driver": "drv_issue", "n_quick": 6000, "n_thorough": 60000, "seeds_thorough": 3},
+    {"name": "restart", "family": "restart", "group": "disp", "driver": "drv_issue", "n_quick": 400, "n_thorough": 4000, "seeds_thorough": 3},
     {"name": "rewards", "family": "rewards", "group": "disp", "driver": "drv_issue", "n_quick": 6000, "n_thorough": 60000, "seeds_thorough": 4},
 ]
 RULE = ("mint: real dispensation BeginBlocker on the real keeper/bank, block histories with the counter started 0..6 blocks below the cap "
